@@ -61,8 +61,27 @@ def gen_threads(r: random.Random, pools: c11.Pools, n_threads: int, max_calls: i
     return out
 
 
+def gen_samekeys(r: random.Random, n_threads: int) -> list[list[dict]]:
+    """threads whose graphs produce the SAME memo keys (edge-index strings): routine sets of the abort / switch-first families
+    with matching prefixes, so that an entry leaking from one thread's table into another's would be hit"""
+    pre = r.choice([0, 1, 2])
+    out = []
+    for t in range(n_threads):
+        calls = []
+        for _ in range(r.randint(2, 3)):
+            k = r.choice([1, 3, 8])
+            calls.append({"kind": "decompile", "rs": c11.rs_abort(k, pre + 2) if r.random() < 0.4 else c11.rs_switch(k, pre)})
+        out.append(calls)
+    return out
+
+
 def gen_case(r: random.Random, pools: c11.Pools, i: int, sched: bool) -> dict:
-    flavour = r.choice(["mixed", "mixed", "decompile", "compile"])
+    flavour = r.choice(["mixed", "mixed", "decompile", "compile", "samekeys"])
+    if flavour == "samekeys":
+        if sched:
+            return {"threads": gen_samekeys(r, r.choice([2, 3, 4])), "mode": "sched", "seed": r.randint(0, 10**9), "p_switch": r.choice([0.05, 0.2, 0.5]),
+                    "warm": False, "antlr": False, "budget_s": 150, "instrument": False, "flavour": flavour}
+        return {"threads": gen_samekeys(r, r.choice([3, 4, 8])), "mode": "free", "switchinterval": 1e-6, "warm": False, "budget_s": 150, "instrument": False, "flavour": flavour}
     if sched:
         n = r.choice([2, 2, 3, 4])
         return {"threads": gen_threads(r, pools, n, 2, flavour), "mode": "sched", "seed": r.randint(0, 10**9),
@@ -127,6 +146,8 @@ def run(run: core.Run) -> int:
         c["warm"] = False
         if i % 2 == 0:
             c["threads"] = gen_threads(run.rng, pools, len(c["threads"]), 2, "decompile")
+        elif i % 4 == 1:
+            c["threads"] = gen_samekeys(run.rng, len(c["threads"]))
         instr.append(c)
     cases += instr
     # the Lean witness on the real code: thread A = routine sets whose convert() is abandoned midway, thread B = switch-first sets
